@@ -86,7 +86,7 @@ def a2(prog, ctx, setters):
     fk = prog.fn("find_key")
     ctx.touch(fk)
     cfg = fk.cfg
-    lp = [x for x in fk.walk() if x.k == "ForStmt"]
+    lp = [x for x in fk.walk() if x.k in ("ForStmt", "WhileStmt", "DoStmt") and any(c.j.get("callee") == "strcmp" for c in x.walk() if c.k == "CallExpr")]
     if len(lp) != 1:
         raise Inconclusive("find_key: lookup loop not recognised")
     hb = cfg.loop_header(lp[0])
@@ -102,12 +102,13 @@ def a2(prog, ctx, setters):
     for (b, i, s) in cfg.edges():
         lit = cfg.edge_lit(b, i)
         if lit is not None and lit.kind == "truth" and lit.atom in ("key", "*key") and not lit.pol:
-            region = cfg.reachable(s)
-            rets = [cfg.return_of_block(x) for x in region if cfg.return_of_block(x) is not None]
-            if hb in region:
+            if hb in cfg.reachable(s):
                 continue
-            if all(query.returned_constant(r) not in (0, "ECONF_SUCCESS", None) for r in rets) and rets:
-                ctx.ok("A2", "find_key: refusal returns an error code", rets[0].where, "returns %s" % query.returned_constant(rets[0]))
+            vals = cfg.returned_via((b, i))
+            if vals and all(v not in (0, "ECONF_SUCCESS", None) for v in vals):
+                ctx.ok("A2", "find_key: refusal returns an error code", lit.node.where, "returns %s" % sorted(vals))
+            elif vals and all(v not in (0, "ECONF_SUCCESS") for v in vals):
+                ctx.inconclusive("A2", "find_key: refusal returns an error code", lit.node.where, "returned value not a known constant")
             else:
                 ctx.fail("A2", "find_key: refusal returns an error code", fk.where, "refusing path returns success", key="findkey-ret")
     for n in setters:
@@ -154,31 +155,59 @@ def a3(prog, ctx, getters, setters):
             ctx.fail("A3", "%s accepts [section] and section alike" % n, c.where,
                      "the section argument reaches %s as %s without stripbrackets(): '[s]' and 's' denote different sections for this accessor" % (target, render(a)),
                      key="brackets:%s" % n)
-    # NULL / empty section = the group-less marker, in lookup, creation and listing alike
+    # NULL / empty section = the group-less marker, in lookup, creation and listing alike.  The choice may be a
+    # conditional expression or an if/else; its condition is evaluated for the three kinds of section argument.
+    from sa.cond import eval_str_cases
     for n in ("find_key", "new_key", "econf_getKeys"):
         f = prog.fn(n)
         ctx.touch(f)
-        found = None
-        for x in f.walk():
-            if x.k == "ConditionalOperator":
-                t = x.child("then").strip()
-                if t.k == "CallExpr" and t.j.get("callee") == "strdup" and t.call_args() and t.call_args()[0].string_value() is not None:
-                    cond = render(x.child("cond"))
-                    found = (t.call_args()[0].string_value(), cond, x)
-        if found is None:
+        strparams = [p["name"] for p in f.params if "char" in p.get("type", p.get("ct", "char"))]
+        found = []
+        for lit in f.walk():
+            if lit.k != "StringLiteral":
+                continue
+            # enclosing choice
+            cur, prev = lit.parent, lit
+            while cur is not None and cur.k not in ("ConditionalOperator", "IfStmt"):
+                if cur.k in ("CompoundStmt",) and cur.parent is not None and cur.parent.k not in ("IfStmt",):
+                    break
+                prev, cur = cur, cur.parent
+            if cur is None or cur.k not in ("ConditionalOperator", "IfStmt"):
+                continue
+            cond = cur.child("cond")
+            side = "then" if prev is cur.child("then") or (cur.child("then") is not None and lit.within(cur.child("then"))) else "else"
+            other = cur.child("else") if side == "then" else cur.child("then")
+            for pnm in strparams:
+                if not query.mentions_name(cond, pnm) or other is None or not query.mentions_name(other, pnm):
+                    continue
+                ev = eval_str_cases(cond, pnm)
+                found.append((lit.string_value(), render(cond), cur, side, ev))
+        if not found:
             ctx.inconclusive("A3", "%s maps NULL/empty section to the marker" % n, f.where, "idiom not found")
-        elif found[0] == MARKER and "!" in found[1] and "*" in found[1]:
-            ctx.ok("A3", "%s maps NULL/empty section to the marker" % n, found[2].where, "(%s) ? %r" % (found[1], MARKER))
-        else:
-            ctx.fail("A3", "%s maps NULL/empty section to the marker" % n, found[2].where,
-                     "uses %r under (%s); the other accessors use %r for NULL and empty names" % (found[0], found[1], MARKER), key="marker:%s" % n)
+            continue
+        for val, ctext, x, side, ev in found:
+            if ev is None:
+                ctx.inconclusive("A3", "%s maps NULL/empty section to the marker" % n, x.where, "condition `%s` not understood" % ctext)
+                continue
+            marker_when = {c: (v if side == "then" else (not v)) if v != "deref" else "deref" for c, v in ev.items()}
+            if "deref" in marker_when.values():
+                ctx.fail("A3", "%s maps NULL/empty section to the marker" % n, x.where, "`%s` dereferences a NULL section name" % ctext, key="marker:%s" % n)
+            elif val == MARKER and marker_when == {"null": True, "empty": True, "text": False}:
+                ctx.ok("A3", "%s maps NULL/empty section to the marker" % n, x.where, "(%s): NULL and \"\" give %r, any other name is used as given" % (ctext, MARKER))
+            else:
+                ctx.fail("A3", "%s maps NULL/empty section to the marker" % n, x.where,
+                         "uses %r for %s under (%s); the other accessors use %r for NULL and empty names" % (
+                             val, [c for c, v in marker_when.items() if v], ctext, MARKER), key="marker:%s" % n)
 
 
 def a4(prog, ctx):
     f = prog.fn("find_key")
     cfg = f.cfg
-    lp = [x for x in f.walk() if x.k == "ForStmt"][0]
-    sh = loops.for_shape(lp)
+    lps = [x for x in f.walk() if x.k in ("ForStmt", "WhileStmt", "DoStmt") and any(c.j.get("callee") == "strcmp" for c in x.walk() if c.k == "CallExpr")]
+    if len(lps) != 1:
+        raise Inconclusive("find_key: lookup loop not recognised")
+    lp = lps[0]
+    sh = loops.index_shape(lp)
     obj = f.params[0]["name"]
     want = "%s.length" % obj if f.params[0].get("ct") == "struct econf_file" else "%s->length" % obj
     if loops.covers_range(sh, 0, want):
@@ -190,37 +219,53 @@ def a4(prog, ctx):
         ctx.fail("A4", "find_key scans [0,length) ascending", lp.where, "loop is %s" % sh.describe(), key="findkey-shape")
     else:
         ctx.inconclusive("A4", "find_key scans [0,length) ascending", lp.where, sh.describe())
-    # match: group and key both equal, first match returns
-    hb = cfg.loop_header(lp)
-    succ = [r for r in f.returns() if query.returned_constant(r) in ("ECONF_SUCCESS", 0)]
-    if not succ:
-        ctx.fail("A4", "find_key returns the first match", f.where, "no success return", key="findkey-first")
+    # match: group and key both equal; the index is published; nothing is published after the first match
+    pubs = [st for lhs, rhs, st, kind in query.stores(f) if render(lhs) == "*num" and rhs is not None]
+    if not pubs:
+        ctx.fail("A4", "find_key returns the first match", f.where, "*num is never set", key="findkey-first")
         return
-    r = succ[0]
-    rb = cfg.block_of(r)
+    why = []
+    for st in pubs:
+        sb = cfg.block_of(st)
 
-    def eqtest(field):
-        def p(lit, b, i):
-            return (lit is not None and lit.kind == "truth" and not lit.pol and lit.node.k == "CallExpr" and lit.node.j.get("callee") == "strcmp"
-                    and any(render(a).endswith("." + field) for a in lit.node.call_args()))
-        return p
-    okg, _ = cfg.all_paths_cut(rb, eqtest("group"))
-    okk, _ = cfg.all_paths_cut(rb, eqtest("key"))
-    in_loop = r.within(lp)
-    stores_num = [st for lhs, rhs, st, kind in query.stores(f) if render(lhs) == "*num" and rhs is not None and render(rhs) == sh.var and cfg.node_dominates(st, r)]
-    if okg and okk and in_loop and stores_num:
-        ctx.ok("A4", "find_key returns the first match", r.where, "strcmp(group)==0 and strcmp(key)==0, *num = %s, return inside the loop" % sh.var)
-    else:
-        why = []
-        if not okg:
+        def eqtest(field):
+            def p(lit, b, i):
+                return (lit is not None and lit.kind == "truth" and not lit.pol and lit.node.k == "CallExpr" and lit.node.j.get("callee") == "strcmp"
+                        and any(render(a).endswith("." + field) or render(a).endswith("->" + field) for a in lit.node.call_args()))
+            return p
+        okg, cg = cfg.all_paths_cut(sb, eqtest("group"), start=cfg.loop_body_entry(lp))
+        okk, ck = cfg.all_paths_cut(sb, eqtest("key"), start=cfg.loop_body_entry(lp))
+        if not (okg and cg):
             why.append("group is not compared with strcmp() == 0")
-        if not okk:
+        if not (okk and ck):
             why.append("key is not compared with strcmp() == 0")
-        if not in_loop:
+        if sh.ok and render(st.children[1]) != sh.var:
+            why.append("*num is set to %s, not to the matching index" % render(st.children[1]))
+        # success is what the function returns after publishing
+        ok_ret = True
+        for r in f.returns():
+            rb = cfg.block_of(r)
+            if rb in cfg.reachable(sb):
+                wp = cfg.feasible_reach(rb, lambda lit, b, i: False, lambda a: True, start=sb)
+                if wp is not None and query.returned_constant(r) not in ("ECONF_SUCCESS", 0):
+                    # a variable return: must hold SUCCESS on the consistent paths from the store
+                    val = r.children[0].strip() if r.children else None
+                    if val is not None and val.k == "DeclRefExpr" and val.j.get("dk") == "local":
+                        sets = [s2 for l2, r2, s2, k2 in query.stores(f) if render(l2) == val.j["name"] and r2 is not None
+                                and query.returned_constant_expr(r2) in ("ECONF_SUCCESS", 0) and cfg.block_of(s2) == sb]
+                        if sets:
+                            continue
+                    ok_ret = False
+        if not ok_ret:
+            why.append("a match does not end in ECONF_SUCCESS")
+        # first match wins: no consistent way from the publication back to it
+        again = cfg.feasible_reach(sb, lambda lit, bb, ii: False, lambda a: True, start=sb, nonempty=True)
+        if again is not None:
             why.append("the loop keeps scanning after a match (last match wins)")
-        if not stores_num:
-            why.append("*num is not set to the matching index")
-        ctx.fail("A4", "find_key returns the first match", r.where, "; ".join(why), key="findkey-first")
+    if not why:
+        ctx.ok("A4", "find_key returns the first match", pubs[0].where, "strcmp(group)==0 and strcmp(key)==0, *num = %s, and the scan ends with the first match" % sh.var)
+    else:
+        ctx.fail("A4", "find_key returns the first match", pubs[0].where, "; ".join(dict.fromkeys(why)), key="findkey-first")
 
 
 def a5(prog, ctx):
@@ -289,7 +334,7 @@ def a5(prog, ctx):
     for callee in ("setGroup", "setKey"):
         cs = n.calls(callee)
         if len(cs) == 1 and render(cs[0].call_args()[1]) == "key_file->length - 1" and n.calls("key_file_append") and \
-                n.cfg.node_dominates(n.calls("key_file_append")[0], cs[0]):
+                n.cfg.must_pass(n.calls("key_file_append")[0], cs[0]):
             ctx.ok("A5", "new_key fills the appended entry (%s)" % callee, cs[0].where, "index key_file->length - 1 after key_file_append()")
         else:
             ctx.fail("A5", "new_key fills the appended entry (%s)" % callee, n.where, "index %s" % [render(c.call_args()[1]) for c in cs], key="newkey-%s" % callee)
